@@ -1,7 +1,125 @@
 import Cherab.Drv.Proto
-open Cherab.Drv
+import Cherab.Model.Groups
+import Cherab.Gen.GroupTable
+open Cherab.Drv Cherab.Groups Cherab.Gen.GroupTable
 
-/-- C15 driver: not yet implemented (echo) -/
+/-!
+C15 driver: interprets the *generated* descriptor table on histories sent by the harness.
+
+  new <class> <gid>                       fresh empty group
+  mk <uid> <t1,t2,…|-> <a=id,…|->         object on the heap (types = names in its MRO; initial attribute contents)
+  add <uid>                               group.add_observer / add_foil_detector
+  set <name> <obj> <item>*                group.<name> = value        obj/item = stored:rej:kind:engine
+  setm <name> <kind> <uid>*               group.<name> = [observers]  (observers / sight_lines / foil_detectors)
+  get <name>                              group.<name>
+  item i <int> | s <a> <b> <c> | n <id> | x      group[key]
+  len | observe
+  poke <uid> <attr> <id>                  observer.<attr> changed directly
+  snap <a1,a2,…>                          members with parent flag and the listed attributes
+  obj <uid> <a1,a2,…>                     one heap object (also non-members)
+-/
+
+structure St where
+  ci : Option ClassInfo := none
+  w : World := ⟨0, fun _ => { attrs := fun _ => 0 }, []⟩
+
+def errName : Err → String
+  | .valueError => "ValueError"
+  | .typeError => "TypeError"
+  | .attributeError => "AttributeError"
+  | .indexError => "IndexError"
+  | .other => "Other"
+
+def pErr (s : String) : Option Err :=
+  match s with
+  | "V" => some .valueError
+  | "T" => some .typeError
+  | "A" => some .attributeError
+  | "I" => some .indexError
+  | "O" => some .other
+  | _ => none
+
+def pKind (s : String) : Option SeqKind :=
+  match s with
+  | "L" => some .list
+  | "T" => some .tuple
+  | "N" => some .ndarray
+  | _ => none
+
+def pObj (s : String) : Obj :=
+  match s.splitOn ":" with
+  | [a, r, k, e] => { stored := pN a, rej := pErr r, kind := pKind k, engine := pB e }
+  | _ => { stored := 0, rej := some .other }
+
+def pOptI (s : String) : Option Int := if s == "-" then none else some (pI s)
+
+def csv (s : String) : List String := if s == "-" then [] else (s.splitOn ",").filter (· ≠ "")
+
+def res (r : World × Option Err) : String :=
+  match r.2 with
+  | none => "ok"
+  | some e => errName e
+
+def showOut : Out → String
+  | .vals xs => "vals " ++ " ".intercalate (xs.map toString)
+  | .objs us => "objs " ++ " ".intercalate (us.map toString)
+  | .err e => "err " ++ errName e
+
+def showObj (w : World) (attrs : List String) (u : Nat) : String :=
+  let o := w.heap u
+  toString u ++ ":" ++ (if o.parent == some w.gid then "1" else "0") ++ ":" ++
+    ",".intercalate (attrs.map fun a => toString (o.attrs a))
+
+def step' (st : St) (ts : List String) : St × String :=
+  match ts with
+  | ["new", c, g] =>
+    match classes.find? (·.name == c) with
+    | some ci => ({ ci := some ci, w := ⟨pN g, fun _ => { attrs := fun _ => 0 }, []⟩ }, "ok")
+    | none => (st, "nocls")
+  | ["mk", u, tys, ats] =>
+    let kv := (csv ats).filterMap fun p =>
+      match p.splitOn "=" with
+      | [a, x] => some (a, pN x)
+      | _ => none
+    let o : Obs := { attrs := fun a => ((kv.find? (·.1 == a)).map (·.2)).getD 0, parent := none, types := csv tys }
+    let uu := pN u
+    ({ st with w := { st.w with heap := fun x => if x = uu then o else st.w.heap x } }, "ok")
+  | _ =>
+    match st.ci with
+    | none => (st, "nogroup")
+    | some ci =>
+      match ts with
+      | ["add", u] =>
+        let r := addObserver ci st.w (pN u)
+        ({ st with w := r.1 }, res r)
+      | "set" :: name :: o :: items =>
+        match findDesc table ci.name name with
+        | none => (st, "nodesc")
+        | some d =>
+          let r := setAttr d st.w { obj := pObj o, items := items.map pObj }
+          ({ st with w := r.1 }, res r)
+      | "setm" :: name :: k :: us =>
+        match findDesc table ci.name name with
+        | none => (st, "nodesc")
+        | some d =>
+          let r := setMembers table ci d st.w (pKind k) (us.map pN)
+          ({ st with w := r.1 }, res r)
+      | ["get", name] =>
+        match findDesc table ci.name name with
+        | none => (st, "nodesc")
+        | some d => (st, showOut (getAttr d st.w))
+      | ["item", "i", i] => (st, showOut (getItem ci st.w (.int (pI i))))
+      | ["item", "s", a, b, c] => (st, showOut (getItem ci st.w (.slice (pOptI a) (pOptI b) (pOptI c))))
+      | ["item", "n", x] => (st, showOut (getItem ci st.w (.str (pN x))))
+      | ["item", "x"] => (st, showOut (getItem ci st.w .other))
+      | ["len"] => (st, toString (groupLen st.w))
+      | ["observe"] => (st, showOut (.objs (observe st.w)))
+      | ["poke", u, a, x] => ({ st with w := { st.w with heap := st.w.heap.setAttr (pN u) a (pN x) } }, "ok")
+      | ["snap", ats] =>
+        (st, "n=" ++ toString (groupLen st.w) ++ " " ++ " ".intercalate (st.w.members.map (showObj st.w (csv ats))))
+      | ["obj", u, ats] => (st, showObj st.w (csv ats) (pN u))
+      | _ => (st, "bad-op")
+
 def main : IO UInt32 := do
-  loop (stateless fun ts => " ".intercalate ts) (← IO.getStdin) (← IO.getStdout) ()
+  loop step' (← IO.getStdin) (← IO.getStdout) ({} : St)
   return 0
